@@ -409,7 +409,14 @@ class World(object):
         circus.arbiter.os = osp
         circus.pidfile.os = osp
         circus.circusd.os = osp
-        circus.watcher.randint = lambda a, b: self.rng.randint(a, b)
+        def _randint(a, b):
+            try:
+                return self.rng.randint(a, b)
+            except ValueError as e:
+                # (empty range: the caller's mistake, as with random.randint)
+                e.simulated = True
+                raise
+        circus.watcher.randint = _randint
         sigp = ModProxy(signal, signal=self.sigreg.signal,
                         getsignal=self.sigreg.getsignal,
                         siginterrupt=self.sigreg.siginterrupt)
